@@ -115,12 +115,20 @@ func genC04(e *emitter, tier string, seed int64) {
 		emitProg(e, src+"\n", pt, true, "index-misc")
 	}
 	// ---- len / in on collections ----
-	vals := []string{"[]", "[1,2]", "{}", `{"a":1}`, `""`, `"héllo"`, "5", "nil", "1.5", "true", "[[1],[1]]"}
+	vals := []string{"[]", "[1,2]", "{}", `{"a":1}`, `""`, `"héllo"`, "5", "nil", "1.5", "true", "[[1],[1]]", `{"a": nil}`, `"a"`, "[nil]", `{"a": {"a": nil}}`}
 	for _, v := range vals {
 		emitProg(e, "p(len("+v+"))\n", pt, true, "len")
 		for _, w := range vals {
 			emitProg(e, "p("+v+" in "+w+")\n", pt, true, "in")
 		}
+	}
+	// ---- two decodings of the same JSON text are independent objects; a key holding nil is a member ----
+	for _, src := range []string{
+		"t = \"[1, [2, 3], {\\\"k\\\": 4}]\"\na = load_json(t)\nb = load_json(t)\na[0] = \"changed\"\na[1][0] = 9\np(a, b)\nc = load_json(t)\np(c)\n",
+		"t = \"{\\\"n\\\": 1, \\\"z\\\": null}\"\na = load_json(t)\nb = load_json(t)\na[\"n\"] = a[\"n\"] + 10\na[\"new\"] = 1\np(a, b, len(b), \"z\" in b, \"z\" in a)\n",
+		"m = {\"a\": 1}\nm[\"a\"] = nil\nn = m\np(\"a\" in m, \"a\" in n, len(m))\nfor k in m {\n  p(k)\n}\n",
+	} {
+		emitProg(e, src, pt, true, "json-alias")
 	}
 	// ---- random alias / mutate / snapshot programs ----
 	N := 1500
